@@ -11,6 +11,7 @@ ASSUME = ["scenario language of DESIGN.md 2.3: sources = composite of Generic<ev
 KNOWN_KINDS = {
     "C05/lost-in-failed-dispatch": "F4",
     "C15/lost-in-failed-dispatch": "F4",
+    "C02/lost-in-failed-dispatch": "F4",
     "C15/leaked-registration": "F11",
     "C05/early-rearmed-in-batch": "F5", "C05/early-after-rearm-in-batch": "F5", "C05/residue-after-rearm-in-batch": "F5",
     "C05/wrong-deadline-rearmed-in-batch": "F5", "C05/wrong-deadline-after-rearm-in-batch": "F5",
